@@ -196,6 +196,25 @@ def make_case(window, byfreq, ops, family):
                     if o2 != out[k][1][:cut]:
                         return 'output of a prefix is not the prefix of the output (op %d %s, first %d of %d utterances: %r vs %r)' % (
                             k, KIND[kind], cut, n, o2, out[k][1][:cut])
+        # Puddle.__eq__: two models with the same history are equal; another window, another by_frequency or
+        # another content make them different (one history in eight, it costs three replays)
+        if hash(str(ops)) % 8 == 0 and all(r[0] == 'ok' for r in out):
+            def replay(w, f, upto=None):
+                mm = puddle.Puddle(window=w, by_frequency=f)
+                for k0, t0 in (ops if upto is None else ops[:upto]):
+                    if k0 == 0:
+                        mm.train(list(t0))
+                    else:
+                        list(mm.segment(list(t0), update_model=(k0 == 1)))
+                return mm
+            a, b = replay(window, byfreq), replay(window, byfreq)
+            if not (a == b):
+                return 'two Puddle models with the same history are not equal (==)'
+            if a == replay(window + 1, byfreq) or a == replay(window, not byfreq):
+                return 'Puddle models with different window / by_frequency compare equal'
+            empty = puddle.Puddle(window=window, by_frequency=byfreq)
+            if (a == empty) != (not a._lexicon and not a._beginning and not a._ending):
+                return 'a trained Puddle model compares equal to an empty one (or an empty one does not)'
         # train(A) then train(B) == train(A + B), wherever two train calls follow each other
         for k in range(len(ops) - 1):
             if ops[k][0] == 0 and ops[k + 1][0] == 0 and len(out) >= k + 2 and out[k + 1][0] == 'ok':
